@@ -487,4 +487,742 @@ theorem recover_remove_depth1_aux (mul : G → G → G) (inv : G → G) (rigs : 
         exact entry_eq_of_key_eq t hkeys c' c hc't hc hts hdev
       rw [← this]; exact hc'
 
+/-! ### recovery with nesting and master sensors -/
+
+/-- the master-sensor filter of `rigs_recover_inplace` as a predicate on device ids (`None` filters nothing) -/
+def okOf (masters : Option (List String)) (d : String) : Bool :=
+  match masters with
+  | some ms => ms.contains d
+  | none => true
+
+/-- one job of the recovery pass, master-sensor filter `ok` -/
+def recJobM (mul : G → G → G) (rev : List (String × String × G)) (ok : String → Bool) (cur : List (Entry G))
+    (e : Entry G) : List (Entry G) :=
+  match Dict.get? e.dev rev with
+  | none => cur
+  | some (rig, x) =>
+    if !ok e.dev then cur.filter (fun c => !(c.ts == e.ts && c.dev == e.dev))
+    else if (cur.filter (fun c => !(c.ts == e.ts && c.dev == e.dev))).any (fun c => c.ts == e.ts && c.dev == rig)
+    then cur.filter (fun c => !(c.ts == e.ts && c.dev == e.dev))
+    else cur.filter (fun c => !(c.ts == e.ts && c.dev == e.dev)) ++ [⟨e.ts, rig, mul x e.g⟩]
+
+theorem recoverStep_eq (mul : G → G → G) (inv : G → G) (rigs : Rigs G) (masters : Option (List String))
+    (sorted : List (Entry G)) :
+    recoverStep mul inv rigs masters sorted
+      = sorted.foldl (recJobM mul (reverseRigs inv rigs) (okOf masters)) sorted := by
+  cases masters <;> rfl
+
+theorem recJobM_none {mul : G → G → G} {rev : List (String × String × G)} {ok : String → Bool}
+    (cur : List (Entry G)) (e : Entry G) (h : Dict.get? e.dev rev = none) : recJobM mul rev ok cur e = cur := by
+  unfold recJobM; rw [h]
+
+theorem mem_recJobM_some {mul : G → G → G} {rev : List (String × String × G)} {ok : String → Bool}
+    (cur : List (Entry G)) (e c : Entry G) (r : String) (x : G) (h : Dict.get? e.dev rev = some (r, x))
+    (hc : c ∈ recJobM mul rev ok cur e) :
+    (c ∈ cur ∧ ¬ (c.ts = e.ts ∧ c.dev = e.dev)) ∨ c = ⟨e.ts, r, mul x e.g⟩ := by
+  unfold recJobM at hc
+  rw [h] at hc
+  simp only at hc
+  split at hc
+  · exact Or.inl ((mem_filter_pop cur e c).mp hc)
+  · split at hc
+    · exact Or.inl ((mem_filter_pop cur e c).mp hc)
+    · rcases List.mem_append.mp hc with hc | hc
+      · exact Or.inl ((mem_filter_pop cur e c).mp hc)
+      · exact Or.inr (List.mem_singleton.mp hc)
+
+theorem recJobM_some_keeps {mul : G → G → G} {rev : List (String × String × G)} {ok : String → Bool}
+    (cur : List (Entry G)) (e c : Entry G) (r : String) (x : G) (h : Dict.get? e.dev rev = some (r, x))
+    (hc : c ∈ cur) (hne : ¬ (c.ts = e.ts ∧ c.dev = e.dev)) : c ∈ recJobM mul rev ok cur e := by
+  unfold recJobM
+  rw [h]
+  simp only
+  have := (mem_filter_pop cur e c).mpr ⟨hc, hne⟩
+  split
+  · exact this
+  · split
+    · exact this
+    · exact List.mem_append_left _ this
+
+theorem recJobM_some_has_rig {mul : G → G → G} {rev : List (String × String × G)} {ok : String → Bool}
+    (cur : List (Entry G)) (e : Entry G) (r : String) (x : G) (h : Dict.get? e.dev rev = some (r, x))
+    (hok : ok e.dev = true) : ∃ c ∈ recJobM mul rev ok cur e, c.ts = e.ts ∧ c.dev = r := by
+  unfold recJobM
+  rw [h]
+  simp only [hok, Bool.not_true, Bool.false_eq_true, if_false]
+  split
+  · next hany =>
+    obtain ⟨c, hc, hp⟩ := List.any_eq_true.mp hany
+    simp only [Bool.and_eq_true, beq_iff_eq] at hp
+    exact ⟨c, hc, hp⟩
+  · exact ⟨_, List.mem_append_right _ (List.mem_singleton.mpr rfl), rfl, rfl⟩
+
+/-- an entry of the result of a pass was there before, or was set by a job -/
+theorem mem_foldl_recJobM {mul : G → G → G} {rev : List (String × String × G)} {ok : String → Bool}
+    (jobs cur : List (Entry G)) (c : Entry G) (hc : c ∈ jobs.foldl (recJobM mul rev ok) cur) :
+    c ∈ cur ∨ ∃ j ∈ jobs, ∃ r x, Dict.get? j.dev rev = some (r, x) ∧ c = ⟨j.ts, r, mul x j.g⟩ := by
+  induction jobs generalizing cur with
+  | nil => exact Or.inl hc
+  | cons j0 rest ih =>
+    rw [List.foldl_cons] at hc
+    rcases ih _ hc with h1 | ⟨j, hj, r, x, hg, rfl⟩
+    · cases hg : Dict.get? j0.dev rev with
+      | none => rw [recJobM_none cur j0 hg] at h1; exact Or.inl h1
+      | some p =>
+        obtain ⟨r, x⟩ := p
+        rcases mem_recJobM_some cur j0 c r x hg h1 with ⟨h3, _⟩ | rfl
+        · exact Or.inl h3
+        · exact Or.inr ⟨j0, List.mem_cons_self, r, x, hg, rfl⟩
+    · exact Or.inr ⟨j, List.mem_cons_of_mem _ hj, r, x, hg, rfl⟩
+
+/-- an entry whose device is not mounted survives the pass -/
+theorem foldl_recJobM_keeps {mul : G → G → G} {rev : List (String × String × G)} {ok : String → Bool}
+    (jobs cur : List (Entry G)) (c : Entry G) (hc : c ∈ cur) (hn : Dict.get? c.dev rev = none) :
+    c ∈ jobs.foldl (recJobM mul rev ok) cur := by
+  induction jobs generalizing cur with
+  | nil => exact hc
+  | cons j0 rest ih =>
+    rw [List.foldl_cons]
+    apply ih
+    cases hg : Dict.get? j0.dev rev with
+    | none => rw [recJobM_none cur j0 hg]; exact hc
+    | some p =>
+      obtain ⟨r, x⟩ := p
+      apply recJobM_some_keeps cur j0 c r x hg hc
+      rintro ⟨_, hd⟩
+      rw [hd, hg] at hn
+      cases hn
+
+/-- `Up rev ok j x a`: climbing `j` times from `x` to the rig it is mounted on (as the reversed dictionary `rev` tells)
+  reaches `a`, and every device left behind on the way passes the master-sensor filter `ok` -/
+def Up (rev : List (String × String × G)) (ok : String → Bool) : Nat → String → String → Prop
+  | 0, x, a => x = a
+  | j + 1, x, a => ok x = true ∧ ∃ p gx, Dict.get? x rev = some (p, gx) ∧ Up rev ok j p a
+
+theorem Up.snoc {rev : List (String × String × G)} {ok : String → Bool} {j : Nat} {x a p : String} {ga : G}
+    (h : Up rev ok j x a) (hok : ok a = true) (hg : Dict.get? a rev = some (p, ga)) : Up rev ok (j + 1) x p := by
+  induction j generalizing x with
+  | zero =>
+    have hx : x = a := h
+    subst hx
+    exact ⟨hok, p, ga, hg, rfl⟩
+  | succ j ih =>
+    obtain ⟨h1, q, gx, h2, h3⟩ := h
+    exact ⟨h1, q, gx, h2, ih h3⟩
+
+theorem Up.weaken {rev : List (String × String × G)} {ok : String → Bool} {j : Nat} {x a : String}
+    (h : Up rev ok j x a) : Up rev (fun _ => true) j x a := by
+  induction j generalizing x with
+  | zero => exact h
+  | succ j ih =>
+    obtain ⟨_, q, gx, h2, h3⟩ := h
+    exact ⟨rfl, q, gx, h2, ih h3⟩
+
+/-- progress of one pass: an entry `j ≤ i + 1` steps below the unmounted device `a` whose job is still to come, or an
+  entry `j ≤ i` steps below `a`, leaves an entry at most `i` steps below `a` at the end of the pass -/
+theorem foldl_recJobM_progress {mul : G → G → G} {rev : List (String × String × G)} {ok : String → Bool}
+    (a : String) (ha : Dict.get? a rev = none) (ts : Int) (i : Nat) (jobs cur : List (Entry G))
+    (h : ∃ c ∈ cur, c.ts = ts ∧ ∃ j, Up rev ok j c.dev a ∧
+      (j ≤ i ∨ (j ≤ i + 1 ∧ ∃ job ∈ jobs, job.ts = ts ∧ job.dev = c.dev))) :
+    ∃ c ∈ jobs.foldl (recJobM mul rev ok) cur, c.ts = ts ∧ ∃ j, Up rev ok j c.dev a ∧ j ≤ i := by
+  induction jobs generalizing cur with
+  | nil =>
+    obtain ⟨c, hc, hts, j, hup, hcase⟩ := h
+    rcases hcase with hle | ⟨_, job, hjob, _⟩
+    · exact ⟨c, hc, hts, j, hup, hle⟩
+    · cases hjob
+  | cons j0 rest ih =>
+    rw [List.foldl_cons]
+    apply ih
+    obtain ⟨c, hc, hts, j, hup, hcase⟩ := h
+    cases hg : Dict.get? j0.dev rev with
+    | none =>
+      rw [recJobM_none cur j0 hg]
+      refine ⟨c, hc, hts, j, hup, ?_⟩
+      rcases hcase with hle | ⟨hle, job, hjob, hjts, hjdev⟩
+      · exact Or.inl hle
+      · rcases List.mem_cons.mp hjob with rfl | hjob
+        · cases j with
+          | zero => exact Or.inl (Nat.zero_le _)
+          | succ j' =>
+            obtain ⟨_, q, gx, h2, _⟩ := hup
+            rw [← hjdev, hg] at h2
+            cases h2
+        · exact Or.inr ⟨hle, job, hjob, hjts, hjdev⟩
+    | some p =>
+      obtain ⟨r, x⟩ := p
+      by_cases hk : c.ts = j0.ts ∧ c.dev = j0.dev
+      · cases j with
+        | zero =>
+          have hx : c.dev = a := hup
+          rw [← hk.2, hx, ha] at hg
+          cases hg
+        | succ j' =>
+          obtain ⟨hok, q, gx, h2, h3⟩ := hup
+          rw [hk.2, hg] at h2
+          simp only [Option.some.injEq, Prod.mk.injEq] at h2
+          obtain ⟨rfl, rfl⟩ := h2
+          rw [hk.2] at hok
+          obtain ⟨c', hc', hts', hdev'⟩ := recJobM_some_has_rig (mul := mul) cur j0 r x hg hok
+          refine ⟨c', hc', by rw [hts', ← hk.1, hts], j', by rw [hdev']; exact h3, Or.inl ?_⟩
+          rcases hcase with hle | ⟨hle, _⟩ <;> omega
+      · refine ⟨c, recJobM_some_keeps cur j0 c r x hg hc hk, hts, j, hup, ?_⟩
+        rcases hcase with hle | ⟨hle, job, hjob, hjts, hjdev⟩
+        · exact Or.inl hle
+        · rcases List.mem_cons.mp hjob with rfl | hjob
+          · exact absurd ⟨by rw [hts, hjts], hjdev.symm⟩ hk
+          · exact Or.inr ⟨hle, job, hjob, hjts, hjdev⟩
+
+/-! #### the recovered entries are the poses implied by the original ones -/
+
+/-- the last mounting step of a chain -/
+theorem Mounted.last {mul : G → G → G} {rigs : Rigs G} {a b : String × G} (h : Mounted mul rigs a b) :
+    a = b ∨ ∃ r gr members gm, Mounted mul rigs a (r, gr) ∧ membersOf rigs r = some members ∧
+      (b.1, gm) ∈ members ∧ b.2 = mul gm gr := by
+  induction h with
+  | here d g => exact Or.inl rfl
+  | step r g members m gm d g' hmo hm _ ih =>
+    right
+    rcases ih with heq | ⟨r', gr', members', gm', hM, hmo', hm', hg'⟩
+    · simp only [Prod.mk.injEq] at heq
+      obtain ⟨rfl, rfl⟩ := heq
+      exact ⟨r, g, members, gm, Mounted.here r g, hmo, hm, rfl⟩
+    · exact ⟨r', gr', members', gm', Mounted.step r g members m gm r' gr' hmo hm hM, hmo', hm', hg'⟩
+
+theorem get?_of_mem_nodup {κ ν : Type} [DecidableEq κ] (k : κ) (v : ν) (l : List (κ × ν))
+    (hn : (l.map Prod.fst).Nodup) (h : (k, v) ∈ l) : Dict.get? k l = some v := by
+  induction l with
+  | nil => cases h
+  | cons hd tl ih =>
+    obtain ⟨k', v'⟩ := hd
+    rw [List.map_cons, List.nodup_cons] at hn
+    simp only [Dict.get?]
+    rcases List.mem_cons.mp h with h | h
+    · simp only [Prod.mk.injEq] at h
+      rw [if_pos h.1.symm, h.2]
+    · have hne : k' ≠ k := by
+        rintro rfl
+        exact hn.1 (List.mem_map.mpr ⟨(k', v), h, rfl⟩)
+      rw [if_neg hne]
+      exact ih hn.2 h
+
+theorem membersOf_of_mem {rigs : Rigs G} (hrk : (rigs.map (·.1)).Nodup) {r : String} {members : List (String × G)}
+    (h : (r, members) ∈ rigs) : membersOf rigs r = some members :=
+  get?_of_mem_nodup r members rigs hrk h
+
+/-- a climb in the reversed dictionary is a mounting chain of the rig forest -/
+theorem Up.mounted {mul : G → G → G} {inv : G → G} {rigs : Rigs G} {ok : String → Bool}
+    (hrk : (rigs.map (·.1)).Nodup) {j : Nat} {x a : String} (h : Up (reverseRigs inv rigs) ok j x a) (g : G) :
+    ∃ g', Mounted mul rigs (a, g) (x, g') := by
+  induction j generalizing x with
+  | zero =>
+    have hx : x = a := h
+    subst hx
+    exact ⟨g, Mounted.here _ _⟩
+  | succ j ih =>
+    obtain ⟨_, p, gx, h2, h3⟩ := h
+    obtain ⟨gp, hM⟩ := ih h3
+    obtain ⟨members, gm, hr, hm, _⟩ := reverseRigs_sound inv rigs x p gx h2
+    exact ⟨mul gm gp, hM.trans (Mounted.step p gp members x gm x (mul gm gp) (membersOf_of_mem hrk hr) hm
+      (Mounted.here _ _))⟩
+
+/-- `c` is explained by the original trajectory `t`: it is the pose implied by an original entry and the rig geometry
+  below it, or its device lies strictly above an original entry of that timestamp -/
+def Expl (mul : G → G → G) (inv : G → G) (rigs : Rigs G) (t : List (Entry G)) (c : Entry G) : Prop :=
+  ∃ e ∈ t, e.ts = c.ts ∧ (Mounted mul rigs (e.dev, e.g) (c.dev, c.g) ∨
+    ∃ j, Up (reverseRigs inv rigs) (fun _ => true) (j + 1) e.dev c.dev)
+
+/-- the rig entry set by a job for an explained entry is explained -/
+theorem expl_step (mul : G → G → G) (inv : G → G) (rigs : Rigs G) (t : List (Entry G))
+    (hinv : ∀ a b, mul (inv a) (mul a b) = b)
+    (hone : (rigs.flatMap (fun r => r.2.map (·.1))).Nodup)
+    (j0 : Entry G) (r : String) (x : G) (hg : Dict.get? j0.dev (reverseRigs inv rigs) = some (r, x))
+    (h : Expl mul inv rigs t j0) : Expl mul inv rigs t ⟨j0.ts, r, mul x j0.g⟩ := by
+  obtain ⟨e, he, hts, hcase⟩ := h
+  refine ⟨e, he, hts, ?_⟩
+  rcases hcase with hM | ⟨j, hup⟩
+  · rcases hM.last with heq | ⟨r', gr, members, gm, hM', hmo, hm, hgeq⟩
+    · simp only [Prod.mk.injEq] at heq
+      right
+      refine ⟨0, rfl, r, x, ?_, rfl⟩
+      rw [heq.1]; exact hg
+    · left
+      have hr : (r', members) ∈ rigs := mem_of_get? _ _ _ hmo
+      have := reverseRigs_complete inv rigs hone j0.dev r' members gm hr hm
+      rw [this] at hg
+      simp only [Option.some.injEq, Prod.mk.injEq] at hg
+      obtain ⟨rfl, rfl⟩ := hg
+      simp only at hgeq
+      simp only [hgeq, hinv]
+      exact hM'
+  · right
+    exact ⟨j + 1, hup.snoc rfl hg⟩
+
+theorem foldl_recJobM_expl (mul : G → G → G) (inv : G → G) (rigs : Rigs G) (t : List (Entry G)) (ok : String → Bool)
+    (hinv : ∀ a b, mul (inv a) (mul a b) = b)
+    (hone : (rigs.flatMap (fun r => r.2.map (·.1))).Nodup)
+    (jobs cur : List (Entry G)) (hjobs : ∀ j ∈ jobs, Expl mul inv rigs t j) (hcur : ∀ c ∈ cur, Expl mul inv rigs t c) :
+    ∀ c ∈ jobs.foldl (recJobM mul (reverseRigs inv rigs) ok) cur, Expl mul inv rigs t c := by
+  intro c hc
+  rcases mem_foldl_recJobM jobs cur c hc with h | ⟨j, hj, r, x, hg, rfl⟩
+  · exact hcur c h
+  · exact expl_step mul inv rigs t hinv hone j r x hg (hjobs j hj)
+
+/-! #### the devices below a device, and a chain of master sensors down to a sensor -/
+
+/-- the devices reached from `d` by at most `n` mounting steps, `d` included -/
+def belowList (rigs : Rigs G) : Nat → String → List String
+  | 0, d => [d]
+  | n + 1, d => d :: (match membersOf rigs d with
+      | some members => members.flatMap (fun m => belowList rigs n m.1)
+      | none => [])
+
+theorem self_mem_belowList (rigs : Rigs G) (n : Nat) (d : String) : d ∈ belowList rigs n d := by
+  cases n <;> exact List.mem_cons_self
+
+theorem mem_belowList_succ {rigs : Rigs G} {n : Nat} {a d m : String} {gm : G} {members : List (String × G)}
+    (hmo : membersOf rigs a = some members) (hm : (m, gm) ∈ members) (h : d ∈ belowList rigs n m) :
+    d ∈ belowList rigs (n + 1) a := by
+  unfold belowList
+  rw [hmo]
+  exact List.mem_cons_of_mem _ (List.mem_flatMap.mpr ⟨(m, gm), hm, h⟩)
+
+/-- the only unmounted device at or below `a` is `a` -/
+theorem belowList_unmounted (rigs : Rigs G) (n : Nat) (a d : String) (h : d ∈ belowList rigs n a)
+    (hd : d ∉ rigs.flatMap (fun r => r.2.map (·.1))) : d = a := by
+  induction n generalizing a with
+  | zero => exact List.mem_singleton.mp h
+  | succ n ih =>
+    unfold belowList at h
+    rcases List.mem_cons.mp h with h | h
+    · exact h
+    · exfalso
+      cases hmo : membersOf rigs a with
+      | none => rw [hmo] at h; cases h
+      | some members =>
+        rw [hmo] at h
+        obtain ⟨m, hm, hb⟩ := List.mem_flatMap.mp h
+        have := ih m.1 hb
+        subst this
+        exact hd (List.mem_flatMap.mpr ⟨(a, members), mem_of_get? _ _ _ hmo, List.mem_map.mpr ⟨m, hm, rfl⟩⟩)
+
+theorem mem_belowList_of_mounted {mul : G → G → G} {rigs : Rigs G} (n : Nat) (a d : String) (g g' : G)
+    (hd : DepthLE rigs n a) (hm : Mounted mul rigs (a, g) (d, g')) : d ∈ belowList rigs n a := by
+  induction n generalizing a g with
+  | zero =>
+    cases hm with
+    | here => exact self_mem_belowList rigs 0 _
+    | step _ _ members m gm _ _ hmo _ _ => exact absurd (isRig_of_some hmo) hd
+  | succ n ih =>
+    cases hm with
+    | here => exact self_mem_belowList rigs (n + 1) _
+    | step _ _ members m gm _ _ hmo hmem hrest =>
+      exact mem_belowList_succ hmo hmem (ih m (mul gm g) (hd members hmo (m, gm) hmem) hrest)
+
+instance decIsRig (rigs : Rigs G) (d : String) : Decidable (isRig rigs d) := by unfold isRig; exact inferInstance
+
+instance decDepthLE (rigs : Rigs G) : (n : Nat) → (d : String) → Decidable (DepthLE rigs n d)
+  | 0, d => by unfold DepthLE isRig; exact inferInstance
+  | n + 1, d =>
+    match hmo : membersOf rigs d with
+    | none => isTrue (by intro members h; rw [hmo] at h; cases h)
+    | some ms =>
+      have : Decidable (∀ m ∈ ms, DepthLE rigs n m.1) :=
+        @List.decidableBAll _ (fun m => DepthLE rigs n m.1) (fun m => decDepthLE rigs n m.1) ms
+      if h : ∀ m ∈ ms, DepthLE rigs n m.1 then
+        isTrue (by intro members h'; rw [hmo] at h'; cases h'; exact h)
+      else isFalse (fun hd => h (hd ms hmo))
+
+/-- under a device of depth at most `n` whose rigs all have a member passing the filter, there is a sensor reached by a
+  chain of such members: its pose is implied by the device's, and it climbs back to the device within `n` steps -/
+theorem exists_master_leaf (mul : G → G → G) (inv : G → G) (rigs : Rigs G) (ok : String → Bool)
+    (hone : (rigs.flatMap (fun r => r.2.map (·.1))).Nodup) (n : Nat) (a : String) (ga : G)
+    (hd : DepthLE rigs n a)
+    (hm : ∀ r ∈ belowList rigs n a, ∀ members, membersOf rigs r = some members → ∃ m ∈ members, ok m.1 = true) :
+    ∃ d g j, j ≤ n ∧ ¬ isRig rigs d ∧ Mounted mul rigs (a, ga) (d, g) ∧ Up (reverseRigs inv rigs) ok j d a := by
+  induction n generalizing a ga with
+  | zero => exact ⟨a, ga, 0, Nat.le_refl _, hd, Mounted.here _ _, rfl⟩
+  | succ n ih =>
+    cases hmo : membersOf rigs a with
+    | none => exact ⟨a, ga, 0, Nat.zero_le _, (not_isRig_iff rigs a).mpr hmo, Mounted.here _ _, rfl⟩
+    | some members =>
+      obtain ⟨⟨m, gm⟩, hmem, hok⟩ := hm a (self_mem_belowList rigs (n + 1) a) members hmo
+      obtain ⟨d, g, j, hj, hleaf, hM, hup⟩ := ih m (mul gm ga) (hd members hmo (m, gm) hmem)
+        (fun r hr => hm r (mem_belowList_succ hmo hmem hr))
+      have hr : (a, members) ∈ rigs := mem_of_get? _ _ _ hmo
+      have hg := reverseRigs_complete inv rigs hone m a members gm hr hmem
+      exact ⟨d, g, j + 1, Nat.succ_le_succ hj, hleaf, Mounted.step a ga members m gm d g hmo hmem hM,
+        hup.snoc hok hg⟩
+
+/-! #### iterating the pass -/
+
+/-- `k` passes of rigs_recover_inplace; before each pass the entries are listed by `σ` (the code sorts them by
+  (timestamp, device); the results below hold for any listing that keeps the same entries) -/
+def recoverIter (mul : G → G → G) (inv : G → G) (rigs : Rigs G) (masters : Option (List String))
+    (σ : List (Entry G) → List (Entry G)) : Nat → List (Entry G) → List (Entry G)
+  | 0, t => t
+  | k + 1, t => recoverIter mul inv rigs masters σ k (recoverStep mul inv rigs masters (σ t))
+
+theorem recoverIter_id_eq (mul : G → G → G) (inv : G → G) (rigs : Rigs G) (masters : Option (List String))
+    (k : Nat) (t : List (Entry G)) :
+    recoverIter mul inv rigs masters id k t
+      = (List.range k).foldl (fun cur _ => recoverStep mul inv rigs masters cur) t := by
+  induction k generalizing t with
+  | zero => rfl
+  | succ k ih =>
+    rw [List.range_succ_eq_map, List.foldl_cons, List.foldl_map]
+    exact ih _
+
+theorem recoverStep_expl (mul : G → G → G) (inv : G → G) (rigs : Rigs G) (masters : Option (List String))
+    (σ : List (Entry G) → List (Entry G)) (hσ : ∀ l c, c ∈ σ l ↔ c ∈ l) (t : List (Entry G))
+    (hinv : ∀ a b, mul (inv a) (mul a b) = b)
+    (hone : (rigs.flatMap (fun r => r.2.map (·.1))).Nodup)
+    (cur : List (Entry G)) (hcur : ∀ c ∈ cur, Expl mul inv rigs t c) :
+    ∀ c ∈ recoverStep mul inv rigs masters (σ cur), Expl mul inv rigs t c := by
+  rw [recoverStep_eq]
+  have h : ∀ c ∈ σ cur, Expl mul inv rigs t c := fun c hc => hcur c ((hσ cur c).mp hc)
+  exact foldl_recJobM_expl mul inv rigs t _ hinv hone _ _ h h
+
+theorem recoverIter_expl (mul : G → G → G) (inv : G → G) (rigs : Rigs G) (masters : Option (List String))
+    (σ : List (Entry G) → List (Entry G)) (hσ : ∀ l c, c ∈ σ l ↔ c ∈ l) (t : List (Entry G))
+    (hinv : ∀ a b, mul (inv a) (mul a b) = b)
+    (hone : (rigs.flatMap (fun r => r.2.map (·.1))).Nodup)
+    (k : Nat) (cur : List (Entry G)) (hcur : ∀ c ∈ cur, Expl mul inv rigs t c) :
+    ∀ c ∈ recoverIter mul inv rigs masters σ k cur, Expl mul inv rigs t c := by
+  induction k generalizing cur with
+  | zero => exact hcur
+  | succ k ih => exact ih _ (recoverStep_expl mul inv rigs masters σ hσ t hinv hone cur hcur)
+
+/-- one pass brings the entries below an unmounted device one step closer to it -/
+theorem recoverStep_progress (mul : G → G → G) (inv : G → G) (rigs : Rigs G) (masters : Option (List String))
+    (σ : List (Entry G) → List (Entry G)) (hσ : ∀ l c, c ∈ σ l ↔ c ∈ l)
+    (a : String) (ha : Dict.get? a (reverseRigs inv rigs) = none) (ts : Int) (m : Nat) (cur : List (Entry G))
+    (h : ∃ c ∈ cur, c.ts = ts ∧ ∃ j, Up (reverseRigs inv rigs) (okOf masters) j c.dev a ∧ j ≤ m) :
+    ∃ c ∈ recoverStep mul inv rigs masters (σ cur), c.ts = ts ∧
+      ∃ j, Up (reverseRigs inv rigs) (okOf masters) j c.dev a ∧ j ≤ m - 1 := by
+  rw [recoverStep_eq]
+  apply foldl_recJobM_progress a ha ts (m - 1)
+  obtain ⟨c, hc, hts, j, hup, hle⟩ := h
+  have hc' := (hσ cur c).mpr hc
+  exact ⟨c, hc', hts, j, hup, Or.inr ⟨by omega, c, hc', hts, rfl⟩⟩
+
+theorem recoverIter_progress (mul : G → G → G) (inv : G → G) (rigs : Rigs G) (masters : Option (List String))
+    (σ : List (Entry G) → List (Entry G)) (hσ : ∀ l c, c ∈ σ l ↔ c ∈ l)
+    (a : String) (ha : Dict.get? a (reverseRigs inv rigs) = none) (ts : Int) (k m : Nat) (cur : List (Entry G))
+    (h : ∃ c ∈ cur, c.ts = ts ∧ ∃ j, Up (reverseRigs inv rigs) (okOf masters) j c.dev a ∧ j ≤ m) :
+    ∃ c ∈ recoverIter mul inv rigs masters σ k cur, c.ts = ts ∧
+      ∃ j, Up (reverseRigs inv rigs) (okOf masters) j c.dev a ∧ j ≤ m - k := by
+  induction k generalizing cur m with
+  | zero => exact h
+  | succ k ih =>
+    obtain ⟨c, hc, hts, j, hup, hle⟩ :=
+      ih (m - 1) _ (recoverStep_progress mul inv rigs masters σ hσ a ha ts m cur h)
+    exact ⟨c, hc, hts, j, hup, by omega⟩
+
+theorem unmounted_get?_none (inv : G → G) (rigs : Rigs G) (d : String)
+    (h : d ∉ rigs.flatMap (fun r => r.2.map (·.1))) : Dict.get? d (reverseRigs inv rigs) = none := by
+  cases hg : Dict.get? d (reverseRigs inv rigs) with
+  | none => rfl
+  | some p =>
+    obtain ⟨r, x⟩ := p
+    obtain ⟨members, gm, hr, hm, _⟩ := reverseRigs_sound inv rigs d r x hg
+    exact absurd (List.mem_flatMap.mpr ⟨(r, members), hr, List.mem_map.mpr ⟨(d, gm), hm, rfl⟩⟩) h
+
+/-- recovering after replacing, any nesting, any master sensors: every original entry of an unmounted device (a
+  top-level rig or a free sensor) is back after at least `n` passes -/
+theorem recover_remove_aux (mul : G → G → G) (inv : G → G) (rigs : Rigs G) (masters : Option (List String))
+    (σ : List (Entry G) → List (Entry G)) (hσ : ∀ l c, c ∈ σ l ↔ c ∈ l) (t : List (Entry G)) (n k : Nat)
+    (hinv : ∀ a b, mul (inv a) (mul a b) = b)
+    (hrk : (rigs.map (·.1)).Nodup)
+    (hone : (rigs.flatMap (fun r => r.2.map (·.1))).Nodup)
+    (hdepth : ∀ e ∈ t, DepthLE rigs n e.dev)
+    (hsingle : ∀ e ∈ t, ∀ e' ∈ t, e.ts = e'.ts → e'.dev ∈ belowList rigs n e.dev → e'.dev = e.dev)
+    (hkeys : (t.map (fun e => (e.ts, e.dev))).Nodup)
+    (hmaster : ∀ e ∈ t, ∀ r ∈ belowList rigs n e.dev, ∀ members, membersOf rigs r = some members →
+      ∃ m ∈ members, okOf masters m.1 = true)
+    (hk : n ≤ k) (e : Entry G) (he : e ∈ t) (htop : e.dev ∉ rigs.flatMap (fun r => r.2.map (·.1))) :
+    e ∈ recoverIter mul inv rigs masters σ k (remove mul rigs n t) := by
+  have ha := unmounted_get?_none inv rigs e.dev htop
+  obtain ⟨d, g, j, hj, hleaf, hM, hup⟩ := exists_master_leaf mul inv rigs (okOf masters) hone n e.dev e.g
+    (hdepth e he) (hmaster e he)
+  obtain ⟨e1, he1, h1ts, h1dev, _⟩ := remove_complete_aux mul rigs d g hleaf n t e.ts e.dev e.g he (hdepth e he) hM
+  obtain ⟨c, hc, hcts, j', hup', hj'⟩ := recoverIter_progress mul inv rigs masters σ hσ e.dev ha e.ts k n
+    (remove mul rigs n t) ⟨e1, he1, h1ts, j, by rw [h1dev]; exact hup, hj⟩
+  have hj0 : j' = 0 := by omega
+  subst hj0
+  have hcdev : c.dev = e.dev := hup'
+  have hexpl : ∀ c ∈ remove mul rigs n t, Expl mul inv rigs t c := by
+    intro c hc
+    obtain ⟨e0, he0, hts0, hM0⟩ := remove_sound_aux mul rigs n t c hc
+    exact ⟨e0, he0, hts0, Or.inl hM0⟩
+  obtain ⟨e', he', hts', hcase⟩ := recoverIter_expl mul inv rigs masters σ hσ t hinv hone k _ hexpl c hc
+  suffices hce : c = e by rw [← hce]; exact hc
+  rcases hcase with hM' | ⟨i, hupi⟩
+  · rcases hM'.last with heq | ⟨r', gr, members, gm, _, hmo, hm, _⟩
+    · simp only [Prod.mk.injEq] at heq
+      have : e' = e := entry_eq_of_key_eq t hkeys e' e he' he (by rw [hts', hcts]) (by rw [heq.1, hcdev])
+      subst this
+      cases c
+      simp only at hcts hcdev heq
+      rw [hcts, hcdev, ← heq.2]
+    · exfalso
+      have hr : (r', members) ∈ rigs := mem_of_get? _ _ _ hmo
+      have := reverseRigs_complete inv rigs hone c.dev r' members gm hr hm
+      rw [hcdev, ha] at this
+      cases this
+  · exfalso
+    rw [hcdev] at hupi
+    obtain ⟨g', hMe⟩ := hupi.mounted (mul := mul) hrk e.g
+    have hbelow := mem_belowList_of_mounted n e.dev e'.dev e.g g' (hdepth e he) hMe
+    have hdev := hsingle e he e' he' (by rw [hts', hcts]) hbelow
+    rw [hdev] at hupi
+    obtain ⟨_, p, gx, h2, _⟩ := hupi
+    rw [ha] at h2
+    cases h2
+
+/-! #### nothing else is left: after `n` passes every entry sits on an unmounted device -/
+
+theorem Up.trans {rev : List (String × String × G)} {ok : String → Bool} {j j2 : Nat} {x b a : String}
+    (h1 : Up rev ok j x b) (h2 : Up rev ok j2 b a) : Up rev ok (j + j2) x a := by
+  induction j generalizing x with
+  | zero =>
+    have hx : x = b := h1
+    subst hx
+    rw [Nat.zero_add]; exact h2
+  | succ j ih =>
+    obtain ⟨hok, p, gx, hg, h3⟩ := h1
+    rw [Nat.succ_add]
+    exact ⟨hok, p, gx, hg, ih h3⟩
+
+theorem Up.unsnoc {rev : List (String × String × G)} {ok : String → Bool} {j : Nat} {x a : String}
+    (h : Up rev ok (j + 1) x a) : ∃ q gq, Up rev ok j x q ∧ Dict.get? q rev = some (a, gq) := by
+  induction j generalizing x with
+  | zero =>
+    obtain ⟨_, p, gx, hg, h3⟩ := h
+    have hp : p = a := h3
+    subst hp
+    exact ⟨x, gx, rfl, hg⟩
+  | succ j ih =>
+    obtain ⟨hok, p, gx, hg, h3⟩ := h
+    obtain ⟨q, gq, h4, h5⟩ := ih h3
+    exact ⟨q, gq, ⟨hok, p, gx, hg, h4⟩, h5⟩
+
+/-- a climb to a device of depth at most `n` has at most `n` steps -/
+theorem Up.le_depth {inv : G → G} {rigs : Rigs G} {ok : String → Bool} (hrk : (rigs.map (·.1)).Nodup)
+    {n j : Nat} {x a : String} (hd : DepthLE rigs n a) (h : Up (reverseRigs inv rigs) ok j x a) : j ≤ n := by
+  induction n generalizing a j with
+  | zero =>
+    cases j with
+    | zero => exact Nat.le_refl _
+    | succ j =>
+      obtain ⟨q, gq, _, hg⟩ := h.unsnoc
+      obtain ⟨members, gm, hr, _, _⟩ := reverseRigs_sound inv rigs q a gq hg
+      exact absurd (get?_isSome_of_mem a members rigs hr) hd
+  | succ n ih =>
+    cases j with
+    | zero => exact Nat.zero_le _
+    | succ j =>
+      obtain ⟨q, gq, h1, hg⟩ := h.unsnoc
+      obtain ⟨members, gm, hr, hm, _⟩ := reverseRigs_sound inv rigs q a gq hg
+      exact Nat.succ_le_succ (ih (hd members (membersOf_of_mem hrk hr) (q, gm) hm) h1)
+
+/-- a mounting chain is a climb in the reversed dictionary -/
+theorem Mounted.up {mul : G → G → G} {inv : G → G} {rigs : Rigs G}
+    (hone : (rigs.flatMap (fun r => r.2.map (·.1))).Nodup) {p q : String × G} (h : Mounted mul rigs p q) :
+    ∃ j, Up (reverseRigs inv rigs) (fun _ => true) j q.1 p.1 := by
+  induction h with
+  | here d g => exact ⟨0, rfl⟩
+  | step r g members m gm d g' hmo hm _ ih =>
+    obtain ⟨j, hup⟩ := ih
+    have hr : (r, members) ∈ rigs := mem_of_get? _ _ _ hmo
+    exact ⟨j + 1, hup.snoc rfl (reverseRigs_complete inv rigs hone m r members gm hr hm)⟩
+
+/-- an entry of the result of the pass was there from the start and popped by no job, or was set by a job -/
+theorem mem_foldl_recJobM' {mul : G → G → G} {rev : List (String × String × G)} {ok : String → Bool}
+    (jobs cur : List (Entry G)) (c : Entry G) (hc : c ∈ jobs.foldl (recJobM mul rev ok) cur) :
+    (c ∈ cur ∧ ∀ j ∈ jobs, (Dict.get? j.dev rev).isSome = true → ¬ (c.ts = j.ts ∧ c.dev = j.dev)) ∨
+    (∃ j ∈ jobs, ∃ r x, Dict.get? j.dev rev = some (r, x) ∧ c = ⟨j.ts, r, mul x j.g⟩) := by
+  induction jobs generalizing cur with
+  | nil => exact Or.inl ⟨hc, fun j hj => absurd hj List.not_mem_nil⟩
+  | cons j0 rest ih =>
+    rw [List.foldl_cons] at hc
+    rcases ih _ hc with ⟨h1, h2⟩ | ⟨j, hj, r, x, hg, rfl⟩
+    · cases hg : Dict.get? j0.dev rev with
+      | none =>
+        rw [recJobM_none cur j0 hg] at h1
+        refine Or.inl ⟨h1, ?_⟩
+        intro j hj hs
+        rcases List.mem_cons.mp hj with rfl | hj
+        · rw [hg] at hs; cases hs
+        · exact h2 j hj hs
+      | some p =>
+        obtain ⟨r, x⟩ := p
+        rcases mem_recJobM_some cur j0 c r x hg h1 with ⟨h3, h4⟩ | rfl
+        · refine Or.inl ⟨h3, ?_⟩
+          intro j hj hs
+          rcases List.mem_cons.mp hj with rfl | hj
+          · exact h4
+          · exact h2 j hj hs
+        · exact Or.inr ⟨j0, List.mem_cons_self, r, x, hg, rfl⟩
+    · exact Or.inr ⟨j, List.mem_cons_of_mem _ hj, r, x, hg, rfl⟩
+
+/-- after `i` passes every entry sits on an unmounted device or at least `i` steps above some device -/
+theorem recoverIter_height (mul : G → G → G) (inv : G → G) (rigs : Rigs G) (masters : Option (List String))
+    (σ : List (Entry G) → List (Entry G)) (hσ : ∀ l c, c ∈ σ l ↔ c ∈ l) (k i : Nat) (cur : List (Entry G))
+    (h : ∀ c ∈ cur, Dict.get? c.dev (reverseRigs inv rigs) = none ∨
+      ∃ x j, i ≤ j ∧ Up (reverseRigs inv rigs) (fun _ => true) j x c.dev) :
+    ∀ c ∈ recoverIter mul inv rigs masters σ k cur, Dict.get? c.dev (reverseRigs inv rigs) = none ∨
+      ∃ x j, i + k ≤ j ∧ Up (reverseRigs inv rigs) (fun _ => true) j x c.dev := by
+  induction k generalizing cur i with
+  | zero => exact h
+  | succ k ih =>
+    unfold recoverIter
+    rw [show i + (k + 1) = (i + 1) + k by omega]
+    apply ih
+    intro c hc
+    rw [recoverStep_eq] at hc
+    rcases mem_foldl_recJobM' _ _ c hc with ⟨h1, h2⟩ | ⟨j0, hj0, r, x, hg, rfl⟩
+    · left
+      cases hg : Dict.get? c.dev (reverseRigs inv rigs) with
+      | none => rfl
+      | some p => exact absurd ⟨rfl, rfl⟩ (h2 c h1 (by rw [hg]; rfl))
+    · right
+      rcases h j0 ((hσ cur j0).mp hj0) with hn | ⟨x0, j, hij, hup⟩
+      · rw [hn] at hg; cases hg
+      · exact ⟨x0, j + 1, Nat.succ_le_succ hij, hup.snoc rfl hg⟩
+
+/-- when the original trajectory poses unmounted devices only, nothing else is left after at least `n` passes -/
+theorem recover_remove_only_aux (mul : G → G → G) (inv : G → G) (rigs : Rigs G) (masters : Option (List String))
+    (σ : List (Entry G) → List (Entry G)) (hσ : ∀ l c, c ∈ σ l ↔ c ∈ l) (t : List (Entry G)) (n k : Nat)
+    (hinv : ∀ a b, mul (inv a) (mul a b) = b)
+    (hrk : (rigs.map (·.1)).Nodup)
+    (hone : (rigs.flatMap (fun r => r.2.map (·.1))).Nodup)
+    (hdepth : ∀ e ∈ t, DepthLE rigs n e.dev)
+    (hsrc : ∀ e ∈ t, e.dev ∉ rigs.flatMap (fun r => r.2.map (·.1)))
+    (hk : n ≤ k) (c : Entry G) (hc : c ∈ recoverIter mul inv rigs masters σ k (remove mul rigs n t)) : c ∈ t := by
+  have hexpl : ∀ c ∈ remove mul rigs n t, Expl mul inv rigs t c := by
+    intro c hc
+    obtain ⟨e0, he0, hts0, hM0⟩ := remove_sound_aux mul rigs n t c hc
+    exact ⟨e0, he0, hts0, Or.inl hM0⟩
+  obtain ⟨e, he, hts, hcase⟩ := recoverIter_expl mul inv rigs masters σ hσ t hinv hone k _ hexpl c hc
+  have htop := unmounted_get?_none inv rigs e.dev (hsrc e he)
+  rcases hcase with hM | ⟨i, hup⟩
+  · rcases hM.last with heq | ⟨r', gr, members, gm, hM', hmo, hm, _⟩
+    · simp only [Prod.mk.injEq] at heq
+      have : c = e := by
+        cases c; cases e
+        simp only at hts heq
+        rw [hts, heq.1, heq.2]
+      rw [this]; exact he
+    · exfalso
+      have hr : (r', members) ∈ rigs := mem_of_get? _ _ _ hmo
+      have hg := reverseRigs_complete inv rigs hone c.dev r' members gm hr hm
+      have hheight := recoverIter_height mul inv rigs masters σ hσ k 0 (remove mul rigs n t)
+        (fun c _ => Or.inr ⟨c.dev, 0, Nat.le_refl _, rfl⟩) c hc
+      rcases hheight with hn | ⟨x, j, hj, hupx⟩
+      · rw [hn] at hg; cases hg
+      · obtain ⟨j3, hup3⟩ := hM'.up (inv := inv) hone
+        have hall := (hupx.snoc rfl hg).trans hup3
+        have := Up.le_depth hrk (hdepth e he) hall
+        omega
+  · exfalso
+    obtain ⟨_, p, gx, h2, _⟩ := hup
+    rw [htop] at h2
+    cases h2
+
+/-! #### the depth-1 case as an instance -/
+
+theorem removeStep_eq_self (mul : G → G → G) (rigs : Rigs G) (t : List (Entry G))
+    (h : ∀ e ∈ t, ¬ isRig rigs e.dev) : removeStep mul rigs t = t := by
+  induction t with
+  | nil => rfl
+  | cons hd tl ih =>
+    have h1 : membersOf rigs hd.dev = none := (not_isRig_iff rigs hd.dev).mp (h hd List.mem_cons_self)
+    have h2 := ih (fun e he => h e (List.mem_cons_of_mem _ he))
+    unfold removeStep at h2 ⊢
+    rw [List.flatMap_cons, h2, h1]
+    rfl
+
+theorem remove_one (mul : G → G → G) (rigs : Rigs G) (t : List (Entry G)) :
+    remove mul rigs 1 t = removeStep mul rigs t := by
+  unfold remove
+  split
+  · rfl
+  · next hh =>
+    have hh' : hasRigEntry rigs t = false := by simpa using hh
+    exact (removeStep_eq_self mul rigs t ((hasRigEntry_eq_false_iff rigs t).mp hh')).symm
+
+theorem unmounted_of_get?_none (inv : G → G) (rigs : Rigs G)
+    (hone : (rigs.flatMap (fun r => r.2.map (·.1))).Nodup) (d : String)
+    (h : (Dict.get? d (reverseRigs inv rigs)).isNone = true) : d ∉ rigs.flatMap (fun r => r.2.map (·.1)) := by
+  intro hmem
+  obtain ⟨⟨r, members⟩, hr, hm⟩ := List.mem_flatMap.mp hmem
+  obtain ⟨⟨m, gm⟩, hm', rfl⟩ := List.mem_map.mp hm
+  rw [reverseRigs_complete inv rigs hone m r members gm hr hm'] at h
+  cases h
+
+/-- the listing used by the code: `flatten(trajectories, is_sorted=True)`, sorted by (timestamp, device) -/
+def keyLe (a b : Entry G) : Bool := a.ts < b.ts || (a.ts == b.ts && !(b.dev < a.dev))
+
+def sortEntries (t : List (Entry G)) : List (Entry G) := t.mergeSort keyLe
+
+theorem mem_sortEntries (l : List (Entry G)) (c : Entry G) : c ∈ sortEntries l ↔ c ∈ l := List.mem_mergeSort
+
+/-! #### the loop with its early exit -/
+
+/-- rigs_recover_inplace: at most `k` passes, stopping at the first pass without a job -/
+def recoverLoop (mul : G → G → G) (inv : G → G) (rigs : Rigs G) (masters : Option (List String))
+    (σ : List (Entry G) → List (Entry G)) : Nat → List (Entry G) → List (Entry G)
+  | 0, t => t
+  | k + 1, t =>
+    if hasMemberEntry inv rigs t then recoverLoop mul inv rigs masters σ k (recoverStep mul inv rigs masters (σ t))
+    else t
+
+theorem recoverStep_no_member (mul : G → G → G) (inv : G → G) (rigs : Rigs G) (masters : Option (List String))
+    (s : List (Entry G)) (h : ∀ e ∈ s, Dict.get? e.dev (reverseRigs inv rigs) = none) :
+    recoverStep mul inv rigs masters s = s := by
+  rw [recoverStep_eq]
+  suffices hs : ∀ jobs cur : List (Entry G), (∀ e ∈ jobs, Dict.get? e.dev (reverseRigs inv rigs) = none) →
+      jobs.foldl (recJobM mul (reverseRigs inv rigs) (okOf masters)) cur = cur from hs s s h
+  intro jobs
+  induction jobs with
+  | nil => intro cur _; rfl
+  | cons j0 rest ih =>
+    intro cur hj
+    rw [List.foldl_cons, recJobM_none cur j0 (hj j0 List.mem_cons_self)]
+    exact ih cur (fun e he => hj e (List.mem_cons_of_mem _ he))
+
+theorem mem_recoverIter_no_member (mul : G → G → G) (inv : G → G) (rigs : Rigs G) (masters : Option (List String))
+    (σ : List (Entry G) → List (Entry G)) (hσ : ∀ l c, c ∈ σ l ↔ c ∈ l) (k : Nat) (t : List (Entry G))
+    (h : ∀ e ∈ t, Dict.get? e.dev (reverseRigs inv rigs) = none) (c : Entry G) :
+    c ∈ recoverIter mul inv rigs masters σ k t ↔ c ∈ t := by
+  induction k generalizing t with
+  | zero => exact Iff.rfl
+  | succ k ih =>
+    have hs : ∀ e ∈ σ t, Dict.get? e.dev (reverseRigs inv rigs) = none := fun e he => h e ((hσ t e).mp he)
+    unfold recoverIter
+    rw [recoverStep_no_member mul inv rigs masters (σ t) hs, ih (σ t) hs]
+    exact hσ t c
+
+theorem mem_recoverLoop (mul : G → G → G) (inv : G → G) (rigs : Rigs G) (masters : Option (List String))
+    (σ : List (Entry G) → List (Entry G)) (hσ : ∀ l c, c ∈ σ l ↔ c ∈ l) (k : Nat) (t : List (Entry G)) (c : Entry G) :
+    c ∈ recoverLoop mul inv rigs masters σ k t ↔ c ∈ recoverIter mul inv rigs masters σ k t := by
+  induction k generalizing t with
+  | zero => exact Iff.rfl
+  | succ k ih =>
+    unfold recoverLoop
+    split
+    · exact ih _
+    · next hh =>
+      have hnone : ∀ e ∈ t, Dict.get? e.dev (reverseRigs inv rigs) = none := by
+        intro e he
+        cases hg : Dict.get? e.dev (reverseRigs inv rigs) with
+        | none => rfl
+        | some p =>
+          exfalso
+          apply hh
+          unfold hasMemberEntry
+          exact List.any_eq_true.mpr ⟨e, he, by rw [hg]; rfl⟩
+      exact (mem_recoverIter_no_member mul inv rigs masters σ hσ (k + 1) t hnone c).symm
+
 end Kapture.C06
